@@ -48,7 +48,7 @@ def main():
             shutil.copy(os.path.join(VERIF, "KNOWN_FINDINGS.txt"), vd)
             fired, details = [], {}
             for pid in props:
-                rc, o = run([os.path.join(VERIF, "bin", "corscheck"), "-repo", wt, "-verif", vd, "-property", pid])
+                rc, o = run([os.environ.get("CORSCHECK_BIN", os.path.join(VERIF, "bin", "corscheck")), "-repo", wt, "-verif", vd, "-property", pid])
                 if rc != 0:
                     fired.append(pid)
                     details[pid] = [l.strip()[:400] for l in o.splitlines() if " FAIL " in l][:3]
